@@ -187,12 +187,31 @@ func sendPacket(l *NDNLPLinkService, out dispatch.OutPkt) {
 
 	now := time.Now()
 
+	// Congestion marking
+	congestionMark := pkt.CongestionMark // from upstream
+	if congestionMarking {
+		// GetSendQueueSize is expensive, so only check every 1/2 of the threshold
+		// and only if we can mark congestion for this particular packet
+		if l.congestionCheck > l.options.DefaultCongestionThresholdBytes {
+			if now.After(l.lastTimeCongestionMarked.Add(l.options.BaseCongestionMarkingInterval)) &&
+				l.transport.GetSendQueueSize() > l.options.DefaultCongestionThresholdBytes {
+				core.LogWarn(l, "Marking congestion")
+				congestionMark = utils.IdPtr[uint64](1) // ours
+				l.lastTimeCongestionMarked = now
+			}
+
+			l.congestionCheck = 0
+		}
+
+		l.congestionCheck += uint64(len(wire)) // approx
+	}
+
 	effectiveMtu := l.transport.MTU() - l.headerOverhead
 	if len(out.PitToken) > 0 {
 		// The token attached below is the one of the outgoing packet
 		effectiveMtu -= 1 + 1 + len(out.PitToken)
 	}
-	if pkt.CongestionMark != nil {
+	if congestionMark != nil {
 		effectiveMtu -= congestionMarkOverhead
 	}
 
@@ -230,25 +249,6 @@ func sendPacket(l *NDNLPLinkService, out dispatch.OutPkt) {
 			fragment.Sequence = utils.IdPtr(l.nextSequence)
 			l.nextSequence++
 		}
-	}
-
-	// Congestion marking
-	congestionMark := pkt.CongestionMark // from upstream
-	if congestionMarking {
-		// GetSendQueueSize is expensive, so only check every 1/2 of the threshold
-		// and only if we can mark congestion for this particular packet
-		if l.congestionCheck > l.options.DefaultCongestionThresholdBytes {
-			if now.After(l.lastTimeCongestionMarked.Add(l.options.BaseCongestionMarkingInterval)) &&
-				l.transport.GetSendQueueSize() > l.options.DefaultCongestionThresholdBytes {
-				core.LogWarn(l, "Marking congestion")
-				congestionMark = utils.IdPtr[uint64](1) // ours
-				l.lastTimeCongestionMarked = now
-			}
-
-			l.congestionCheck = 0
-		}
-
-		l.congestionCheck += uint64(len(wire)) // approx
 	}
 
 	// Send fragment(s)
